@@ -388,6 +388,19 @@ class ExprIfThenElseExpander(IdentityMapper):
         rec_condition = self.rec(expr.condition, base_condition, base_deps,
                                  sub_condition_deps)
 
+        from dagrt.language import Assign
+
+        # The flag is assigned before anything guarded by it: statements
+        # introduced for the branches test it.
+        self.new_statements.append(
+            Assign(
+                assignee=flag.name,
+                assignee_subscript=(),
+                expression=rec_condition,
+                condition=base_condition,
+                id=if_stmt_id,
+                depends_on=base_deps | frozenset(sub_condition_deps)))
+
         sub_then_deps = []
         then_condition = flat_LogicalAnd(base_condition, flag)
         rec_then = self.rec(expr.then, then_condition,
@@ -398,16 +411,7 @@ class ExprIfThenElseExpander(IdentityMapper):
         rec_else = self.rec(expr.else_, else_condition,
                             base_deps | frozenset([if_stmt_id]), sub_else_deps)
 
-        from dagrt.language import Assign
-
         self.new_statements.extend([
-            Assign(
-                assignee=flag.name,
-                assignee_subscript=(),
-                expression=rec_condition,
-                condition=base_condition,
-                id=if_stmt_id,
-                depends_on=base_deps | frozenset(sub_condition_deps)),
             Assign(
                 assignee=tmp_result,
                 assignee_subscript=(),
